@@ -26,7 +26,7 @@ type Aff struct {
 	c *big.Rat
 }
 
-func K(n int64) Aff     { return Aff{map[string]*big.Rat{}, big.NewRat(n, 1)} }
+func K(n int64) Aff    { return Aff{map[string]*big.Rat{}, big.NewRat(n, 1)} }
 func Sym(s string) Aff { return Aff{map[string]*big.Rat{s: big.NewRat(1, 1)}, big.NewRat(0, 1)} }
 func (a Aff) Scale(k *big.Rat) Aff {
 	r := K(0)
@@ -1273,4 +1273,6 @@ func (a *Analysis) LenExactly(instr ssa.Instruction, v ssa.Value, k int64) bool 
 }
 
 // ParamLen builds the fact len(param) >= k.
-func (a *Analysis) ParamLen(p *ssa.Parameter, k int64) Aff { return Sym("len(" + name(p) + ")").Sub(K(k)) }
+func (a *Analysis) ParamLen(p *ssa.Parameter, k int64) Aff {
+	return Sym("len(" + name(p) + ")").Sub(K(k))
+}
